@@ -177,6 +177,83 @@ theorem reject_yaml (g : GenFull) (text : String)
     | none => simp [hU x hp1]
     | some y => simp [hU x hp1, hS y hp2]
 
+/-! ## the whole decoders: with the native block -/
+
+/-- without a parsable self-unmarshalling trait the native block does nothing: the theorems
+above are then about the whole generated `UnmarshalJSON` / `UnmarshalYAML` -/
+theorem nativeTry_none_of_no_self (g : GenFull) (dec : String → Option Int)
+    (h : ∀ td ∈ g.traits, td.parsable = true → ∀ inner, td.fam ≠ .self inner) : g.nativeTry dec = none := by
+  unfold GenFull.nativeTry
+  apply firstSome_none
+  intro x hx
+  obtain ⟨td, htd, rfl⟩ := List.mem_map.mp hx
+  have hm := List.mem_filter.mp htd
+  have := h td hm.1 (by simpa using hm.2)
+  cases hf : td.fam with
+  | self inner => exact absurd hf (this inner)
+  | ustr => rfl
+  | nstr => rfl
+  | sint b => rfl
+  | uint b => rfl
+  | none => rfl
+
+theorem full_eq_of_no_self (g : GenFull) (envJ : String → JDoc → Option Int) (envY : String → String → Option Int)
+    (h : ∀ td ∈ g.traits, td.parsable = true → ∀ inner, td.fam ≠ .self inner) (doc : JDoc) (text : String) :
+    g.unmarshalJSONFull {} envJ doc = g.unmarshalJSON {} doc ∧
+    g.unmarshalYAMLFull {} envY text = g.unmarshalYAML {} text := by
+  unfold GenFull.unmarshalJSONFull GenFull.unmarshalYAMLFull
+  rw [nativeTry_none_of_no_self g _ h, nativeTry_none_of_no_self g _ h]
+  constructor
+  · cases g.unmarshalJSON {} doc <;> rfl
+  · cases g.unmarshalYAML {} text <;> rfl
+
+/-- round trip through the whole decoders (the native block comes last and is not reached) -/
+theorem roundtrip_full (o : Options) (g : GenFull) (h : genFull o f t = .ok g)
+    (ha : Accepted f t.name k) (e : Int) (hd : Defined f t.name e)
+    (envJ : String → JDoc → Option Int) (envY : String → String → Option Int) :
+    g.unmarshalJSONFull {} envJ (.str (g.marshal e)) = some e ∧
+    g.unmarshalYAMLFull {} envY (g.marshal e) = some e := by
+  obtain ⟨hj, _, hy⟩ := roundtrip o g h ha e hd
+  unfold GenFull.unmarshalJSONFull GenFull.unmarshalYAMLFull
+  rw [hj, hy]; exact ⟨rfl, rfl⟩
+
+/-- the native block rejects unless the trait type's OWN decoder reads the document as a value
+whose typed constant is in the `Parse` switch -/
+theorem nativeTry_none (g : GenFull) (dec : String → Option Int)
+    (h : ∀ td ∈ g.traits, td.parsable = true → ∀ inner v, td.fam = .self inner → dec inner = some v →
+      g.base.parse ⟨td.ty, .int v⟩ = none) : g.nativeTry dec = none := by
+  unfold GenFull.nativeTry
+  apply firstSome_none
+  intro x hx
+  obtain ⟨td, htd, rfl⟩ := List.mem_map.mp hx
+  have hm := List.mem_filter.mp htd
+  cases hf : td.fam with
+  | self inner =>
+    simp only []
+    cases hdv : dec inner with
+    | none => rfl
+    | some v => exact h td hm.1 (by simpa using hm.2) inner v hf hdv
+  | ustr => rfl
+  | nstr => rfl
+  | sint b => rfl
+  | uint b => rfl
+  | none => rfl
+
+/-- rejection by the whole JSON / YAML decoders: what the branches above reject is rejected unless
+a self-unmarshalling trait type decodes the document to one of its parsable constants. In
+particular a bare numeral is never decoded THROUGH such a trait (its type reads names). -/
+theorem reject_full (g : GenFull) (envJ : String → JDoc → Option Int) (envY : String → String → Option Int)
+    (doc : JDoc) (text : String)
+    (hj : g.unmarshalJSON {} doc = none) (hy : g.unmarshalYAML {} text = none)
+    (hnj : ∀ td ∈ g.traits, td.parsable = true → ∀ inner v, td.fam = .self inner → envJ inner doc = some v →
+      g.base.parse ⟨td.ty, .int v⟩ = none)
+    (hny : ∀ td ∈ g.traits, td.parsable = true → ∀ inner v, td.fam = .self inner → envY inner text = some v →
+      g.base.parse ⟨td.ty, .int v⟩ = none) :
+    g.unmarshalJSONFull {} envJ doc = none ∧ g.unmarshalYAMLFull {} envY text = none := by
+  unfold GenFull.unmarshalJSONFull GenFull.unmarshalYAMLFull
+  rw [hj, hy, nativeTry_none g _ hnj, nativeTry_none g _ hny]
+  exact ⟨rfl, rfl⟩
+
 /-! ## the pinned algorithms -/
 
 /-- values 0,1,2 with an untyped-int trait 0,10,20 declared parsable -/
